@@ -698,5 +698,12 @@ class CphotAng:
             zip(betaE, alt, Eshow100PeV, init_lat, init_long), partition_size=100
         )
         with ProgressBar():
-            Dphots, Cang = zip(*b.map(lambda x: self.run(*x, cloudf)).compute())
+            results = b.map(lambda x: self.run(*x, cloudf)).compute()
+        # A StopIteration escaping from the evaluation of one event ends that
+        # partition's map early instead of failing the computation.
+        if len(results) != len(betaE):
+            raise RuntimeError(
+                f"shower evaluation returned {len(results)} results for {len(betaE)} events"
+            )
+        Dphots, Cang = zip(*results)
         return np.asarray(Dphots), np.array(Cang)
